@@ -341,10 +341,7 @@ func runHealth(r *simkit.Run, focus string) {
 					clause = "C27-not-restored-although-condition-holds"
 				}
 			}
-			if clause == "C27-restored-before-recovery-condition" && n.masterDownRestore {
-				w.finding = "C27-F1"
-				n.viaMasterDown = true
-			}
+
 			w.fail(clause, "%s", detail)
 			n.masterDownRestore = false
 			n.up = real // resynchronise for clauses that belong to another property
@@ -378,7 +375,9 @@ func runHealth(r *simkit.Run, focus string) {
 			if !ok || !n.node.IsStatusUp() {
 				continue
 			}
-			if w.unix() < lt+w.cool && !(w.masterVaries && (!w.master.node.IsStatusUp() || upViaMasterDown[n])) && !n.viaMasterDown {
+			// (until fix 3905459 the master-down rule restored fused replicas at once - finding
+			// C27-F1 - and this invariant made an exception for it; the rule respects the cool-down now)
+			if w.unix() < lt+w.cool {
 				w.fail("C27-restored-before-cooldown", "node %s is up at unix %d although the breaker fired at %d and the cool-down is %ds", n.script.name, w.unix(), lt, w.cool)
 			}
 		}
